@@ -1,13 +1,39 @@
 """Generator helpers: byte-string content families and boundary sets."""
 def contents(rng, n, kind=None):
-    kind = kind or rng.choice(["rand", "rand", "rand", "zero", "ff", "80", "inc"])
+    kind = kind or rng.choice(["rand", "rand", "rand", "zero", "ff", "80", "inc", "spot", "spot", "texty"])
+    if kind == "texty":     # what text-handling code might "normalise": a byte-order mark, line ends, blanks, NULs at either end
+        pre = rng.choice([b"\xef\xbb\xbf", b"\xff\xfe", b"\xfe\xff", b" ", b"\x00", b"\r\n", b""]); suf = rng.choice([b"\n", b"\r\n", b" ", b"\x00", b"\x00\x00", b"=", b""])
+        mid = bytes(rng.randrange(0x20, 0x7F) for _ in range(max(0, n - len(pre) - len(suf))))
+        return (pre + mid + suf)[:n] if n >= len(pre) + len(suf) else (pre + suf)[:n]
     if kind == "rand": return bytes(rng.randrange(256) for _ in range(n))
+    if kind == "spot":      # random bytes with one special value at a special position (first, last, middle, around 64 / 128)
+        b = bytearray(rng.randrange(256) for _ in range(n))
+        if n:
+            pos = rng.choice([0, n - 1, n // 2, 63, 64, 127, 128, n - 2]) % n
+            b[pos] = rng.choice([0x00, 0xFF, 0x80, 0x7F, 0x01, 0x0A, 0x3D])
+        return bytes(b)
     if kind == "zero": return bytes(n)
     if kind == "ff": return b"\xff" * n
     if kind == "80": return b"\x80" * n
     return bytes((i * 7 + 1) & 255 for i in range(n))
 
 HASHES = ["sha1", "sha256", "sha512"]
+
+# --- mining inputs whose RESULT has a special value (python's hashlib/hmac are used to FIND inputs only; the oracle stays the model) ---
+DIGEST_PREDS = [("last=00", lambda d: d[-1] == 0), ("first=00", lambda d: d[0] == 0), ("last=ff", lambda d: d[-1] == 0xFF), ("two-zero-bytes", lambda d: d.count(0) >= 2),
+                ("has-0a", lambda d: 0x0A in d), ("last-two=0000", lambda d: d[-1] == 0 and d[-2] == 0), ("high-bits-clear", lambda d: d[0] < 0x10)]
+def mine_message(rng, t, pred, tries=200000):
+    import hashlib
+    for _ in range(tries):
+        m = bytes(rng.randrange(256) for _ in range(rng.randrange(1, 40)))
+        if pred(hashlib.new(t, m).digest()): return m
+    return None
+def mine_hmac_message(rng, t, key, pred, tries=200000):
+    import hmac as _hmac
+    for _ in range(tries):
+        m = bytes(rng.randrange(256) for _ in range(rng.randrange(1, 40)))
+        if pred(_hmac.new(key, m, t).digest()): return m
+    return None
 BS = {"sha1": 64, "sha256": 64, "sha512": 128}
 DS = {"sha1": 20, "sha256": 32, "sha512": 64}
 LB = {"sha1": 8, "sha256": 8, "sha512": 16}
